@@ -293,6 +293,23 @@ ROUND9 = {
     "C16": "Template::eq ends in false on the unequal edge of every comparison (text bytes, hole labels, text against hole, non-empty left-over text), its cursors advance in mirrored pairs, it answers true only behind the complete comparison or an identity test of address and length; Part::with_formatter stores the formatter.",
 }
 
+ROUND10 = {
+    "C01": "every filter a span macro consults before beginning (call-site `when` and runtime filter) is given the event with the macro-assigned level attached.",
+    "C04": "the loop-exit rule of C02 runs here too.",
+    "C05": "the panicking arm of the default completion uses panic_lvl and the constant error, never the span's ordinary level; no Completion impl that emits directly consults a filter (the empty filter is passed).",
+    "C06": "layering: the channel state is locked only inside methods of Sender / Receiver / ChannelMetrics; the sync / tokio adaptors go through when_flushed / when_empty / try_send.",
+    "C07": "layering rule as C06; along every path of OtlpInner::blocking_flush each signal's flush outcome is tested or part of what is returned.",
+    "C09": "send / try_send / when_* are each one critical section of the state mutex (rule of C06-C08, which sees through new helpers); each signal's channel metrics are sampled from that signal's own sender; layering rule as C06.",
+    "C12": "thorough tier re-runs the client rules on emit_otlp built without default features (K5): the transport's request hook (gRPC framing) is applied to the content on every path to send_request; channel-metrics wiring as C09.",
+    "C13": "C13.R7 covers every function of the OTLP data code and the file writer that writes sval frames (48 bodies), per success path and per loop iteration, and demands a value in every element frame; the bridge overrides all four fragment methods; the loop-exit / no-truncating-adaptor rules of C02 run here too.",
+    "C15": "thorough tier adds the no-alloc build (K2a): a parse result is stored by Value::parse's visitor only on the success edge of every fallible formatting call; the id capture hooks hand on the text they are given through value conversions only.",
+    "C16": "every ToValue / sval / serde view of a Render hands on the rendering (or the literal on the Some edge of as_literal()), never the bare template.",
+    "C17": "the span macros' begin filter gives every filter it consults the event with the macro-assigned level attached.",
+    "C18": "the setup-before-begin rule of C04 (proc-macro token order) runs here too.",
+    "C19": "in emit_macros::props::Props::push a key-value's attributes are read through no early-stopping adaptor and the loop over them is left only on exhaustion or with the duplicate-cfg error; the loop-exit rule of C02 runs here too.",
+    "C20": "the setup-before-begin rule of C04 runs here too (a setup that initialises the slot has run before the span evaluates its runtime).",
+}
+
 for p in props:
     pid = p["id"]
     if pid in CLAIMS and os.path.exists(os.path.join(VERIF, "rules", pid.lower() + ".py")):
@@ -301,6 +318,8 @@ for p in props:
             text = text.rstrip() + " Round 8: " + ROUND8[pid]
         if pid in ROUND9:
             text = text.rstrip() + " Round 9: " + ROUND9[pid]
+        if pid in ROUND10:
+            text = text.rstrip() + " Round 10: " + ROUND10[pid]
         checks.append({
             "property_id": pid,
             "quick_cmd": "./check %s --tier quick" % pid,
